@@ -239,6 +239,14 @@ def defaultLit (c : PyConv) : PyVal → Out Unit Lit
     | .ok fs => .ok (.obj fs)
     | .err e => .err e
     | .crash k => .crash k
+  | .iter xs => match defaultLitList c xs with
+    | .ok ls => .ok (.list ls)
+    | .err e => .err e
+    | .crash k => .crash k
+  | .mapping kvs => match defaultLitFields c kvs with
+    | .ok fs => .ok (.obj fs)
+    | .err e => .err e
+    | .crash k => .crash k
   | .other _ => .crash "TypeError"
 def defaultLitList (c : PyConv) : List PyVal → Out Unit (List Lit)
   | [] => .ok []
